@@ -561,3 +561,84 @@ func reachableRefined(p *core.Prog, cg *core.CallGraph, entries []string) map[*s
 	}
 	return seen
 }
+
+// CTOR-RECURSION — validators are built eagerly: the constructor of a schema validator builds the validators of
+// its allOf / anyOf / oneOf / not members, which build theirs. Such a recursion takes no part of the instance, so
+// only the schema can bound it; when the same recursion also resolves `$ref`s on the way (spec.ExpandSchema inside
+// the cycle, which leaves a circular reference in place), a reference cycle that passes through a composition
+// keyword is unfolded for ever: not the documented panic but an unrecoverable stack overflow, for a schema whose
+// references all resolve.
+func CtorRecursion(p *core.Prog, r *core.Report) {
+	const rule = "CTOR-RECURSION"
+	cg := core.BuildCallGraph(p)
+	// datum-free functions: no interface-typed parameter (constructors take schemas, paths, registries, options —
+	// the registry is an interface: allow interfaces whose type is named)
+	datumFree := func(f *ssa.Function) bool {
+		for _, prm := range f.Params {
+			if it, ok := prm.Type().Underlying().(*types.Interface); ok && it.NumMethods() == 0 {
+				if _, named := prm.Type().(*types.Named); !named && prm.Name() != "rootSchema" && prm.Name() != "root" {
+					return false
+				}
+			}
+		}
+		return true
+	}
+	// SCCs by simple reachability (the graph is small)
+	reach := func(from *ssa.Function) map[*ssa.Function]bool {
+		seen := map[*ssa.Function]bool{}
+		var walk func(f *ssa.Function)
+		walk = func(f *ssa.Function) {
+			for _, g := range cg.Out[f] {
+				if !seen[g] && datumFree(g) {
+					seen[g] = true
+					walk(g)
+				}
+			}
+		}
+		walk(from)
+		return seen
+	}
+	n := 0
+	for _, f := range p.Funcs {
+		if f.Parent() != nil || !datumFree(f) || !strings.HasPrefix(f.Name(), "new") {
+			continue
+		}
+		rs := reach(f)
+		if !rs[f] {
+			continue
+		}
+		// one report per cycle: keyed by its first member in name order
+		first := core.FuncName(f)
+		for g := range rs {
+			if reach(g)[f] && strings.HasPrefix(g.Name(), "new") && g.Parent() == nil && core.FuncName(g) < first {
+				first = core.FuncName(g)
+			}
+		}
+		if first != core.FuncName(f) {
+			continue
+		}
+		n++
+		// does the cycle resolve references on the way?
+		expands := ""
+		for g := range rs {
+			if !reach(g)[f] {
+				continue // not on the cycle
+			}
+			core.EachInstr(g, func(i ssa.Instruction) {
+				if c, ok := i.(ssa.CallInstruction); ok {
+					if h := core.StaticCallee(c); h != nil && strings.HasPrefix(core.QualName(h), "spec.Expand") {
+						expands = p.Pos(c.Pos())
+					}
+				}
+			})
+		}
+		key := "cycle:" + core.FuncName(f)
+		if expands != "" {
+			r.Bad(rule, key, p.Pos(f.Pos()), core.FuncName(f)+" is on a cycle of constructors that consumes nothing of the instance and resolves references on the way ("+expands+"): a $ref cycle through allOf/anyOf/oneOf/not — {\"definitions\":{\"a\":{\"anyOf\":[{\"type\":\"integer\"},{\"$ref\":\"#/definitions/a\"}]}},\"properties\":{\"x\":{\"$ref\":\"#/definitions/a\"}}}, a well-founded schema — is unfolded without end: fatal stack overflow instead of a result")
+		} else {
+			r.OK(rule, key, p.Pos(f.Pos()), "the constructor cycle is bounded by the (already expanded) schema")
+		}
+	}
+	r.Count("constructor_cycles", n)
+	r.Floor("constructor_cycles", 1)
+}
